@@ -27,6 +27,15 @@ TOKEN_OF = {"int": "CONSTANT", "float": "CONSTANT", "hexfloat": "CONSTANT", "cha
 CONTEXTS = [("", ""), ("= ", ";"), ("(", ")"), ("[", "]"), ("-", "\n"), (", ", ","), (" ", " ")]
 
 
+# left contexts that reach further back: words and characters earlier on the line or in the file that have nothing to
+# do with the literal (directive names inside a string or a comment, characters str.splitlines() takes for line ends,
+# other literals, a directive the literal is the value of)
+FAR_CONTEXTS = [('puts("#error: bad input"); c = ', ";"), ("/* # warning */ x = ", ";"), ('s = "%:error ??=warning"; c = ', ";"),
+                ("/* page\x0cbreak */\nx = ", ";\n"), ("// nel \x85 ls \u2028\nx = ", ";\n"), ('"a\x0bb\x1cc" + ', ";"),
+                ("/* \r */ x = ", ";"), ("#define A ", "\n"), ("# define B(x) x + ", "\n"), ("'a' + ", ";"), ('L"x" ', " "),
+                ("0x1p3 + ", ";"), ("#if ", "\n"), ("\tx = y ? ", " : 0;\n"), ("a\\\n = ", ";"), ("??=define C ", "\n")]
+
+
 def plan(tier, seed):
     q = tier == "quick"
     n = 16
@@ -129,11 +138,14 @@ def run_shard(spec):
                 ctxs = CONTEXTS if full else [CONTEXTS[0], CONTEXTS[1 + k % (len(CONTEXTS) - 1)]]
                 if order == "backward":
                     ctxs = ctxs[:1]
+                if order == "forward" and k % 4 == 0:
+                    ctxs = list(ctxs) + [FAR_CONTEXTS[(k // 4) % len(FAR_CONTEXTS)]]
                 for ctx in ctxs:
                     sh.case(ctx[0] + sp + ctx[1])
                     judge_valid(sh, sp, fam, ctx)
             else:
-                for ctx in (CONTEXTS if order == "forward" else CONTEXTS[:2]):
+                far = FAR_CONTEXTS if order == "forward" else [FAR_CONTEXTS[k % len(FAR_CONTEXTS)]]
+                for ctx in (CONTEXTS if order == "forward" else CONTEXTS[:2]) + far:
                     sh.case("bad" + ctx[0] + sp + ctx[1])
                     judge_malformed(sh, sp, fam, code, ctx)
             if k % 5000 == 1:
